@@ -9,7 +9,7 @@ import time
 
 from .. import common, gen, lin, observe, probe
 from ..observe import same
-from ..sched import Recorder, Sched
+from ..sched import LateHandles, Recorder, Sched
 
 PROP = 'C10'
 LEVEL = 'exploration'
@@ -290,7 +290,7 @@ def schedule(dc, sc, res, rng, label):
     setup = dc.Cache(d, timeout=0, disk_min_file_size=T)
     nprod, ncons = rng.randrange(1, 3), rng.randrange(1, 3)
     n = nprod + ncons
-    caches = [setup if shared else dc.Cache(d, timeout=0) for _ in range(n)]
+    caches = LateHandles(rng, n, lambda: dc.Cache(d, timeout=0), shared=setup if shared else None)
     sch = Sched(rng, clock, strategy=rng.choice(['random', 'preempt', 'random', 'ops']),
                 preempt_points={rng.randrange(0, 120) for _ in range(3)})
     rec = Recorder(sch)
@@ -352,6 +352,7 @@ def schedule(dc, sc, res, rng, label):
             res.count('linearizability_search_timeouts')
             good = True
         res.count('schedules_checked')
+        res.count('handles_opened_inside_schedules', caches.opened_inside)
         res.count('evaluations')
         if sch.preemptions_in_op:
             res.seen('schedules', sch.trace_hash())
@@ -361,7 +362,7 @@ def schedule(dc, sc, res, rng, label):
                                                                                 'ret', 'result')} for o in ops]))
     finally:
         probe.set_controller(None)
-        for c in set(caches) | {setup}:
+        for c in set(caches.all()) | {setup}:
             try:
                 c.close()
             except Exception:      # noqa: BLE001
@@ -441,7 +442,7 @@ def timed_schedule(dc, sc, res, rng, label):
                     'ret': -10 + len(ops) + 0.5, 'kind': 'ok', 'result': key, 't0': t0, 't1': clock.now_peek()})
     nprod, ncons = rng.randrange(1, 3), rng.randrange(1, 4)
     n = nprod + ncons
-    caches = [setup if shared else dc.Cache(d, timeout=0) for _ in range(n)]
+    caches = LateHandles(rng, n, lambda: dc.Cache(d, timeout=0), shared=setup if shared else None)
     sch = Sched(rng, clock, strategy=rng.choice(['random', 'preempt', 'random', 'ops']),
                 preempt_points={rng.randrange(0, 80) for _ in range(3)})
     rec = Recorder(sch)
@@ -561,7 +562,7 @@ def timed_schedule(dc, sc, res, rng, label):
                           'had (not) expired', dict(extra, checker=info, history=hist))
     finally:
         probe.set_controller(None)
-        for c in set(caches) | {setup}:
+        for c in set(caches.all()) | {setup}:
             try:
                 c.close()
             except Exception:      # noqa: BLE001
